@@ -52,4 +52,17 @@ b6-7 C13 C18
 b6-8 C07
 b6-9 C16
 b6-10 C12
+b7-1 C01 C18
+b7-2 C05 C08
+b7-3 C05 C03
+b7-4 C05 C04
+b7-5 C02 C03
+b7-6 C04
+b7-7 C02
+b7-8 C01 C13
+b7-9 C06 C08
+b7-10 C13 C01
+b7-11 C06 C18
+b7-12 C10
+b7-13 C15
 LIST
